@@ -69,7 +69,7 @@ func hdRunProperty(t *testing.T, p hdProp) {
 	sink.close(fmt.Sprintf("directed witnesses plus seeded hub histories biased towards %s, executed on the real Hub (real websockets, BackendServer, ClientSession, Room, VirtualSession) with the harness's event bus, fake backend and fake media server; compared step by step with coq/model/Hub.v and judged by the property's trace predicate; distinct = distinct traces", p.id))
 }
 
-func hdJoinOp(c, room, rs int) hdOp { return hdOp{K: "join", C: c, R: room, RS: rs} }
+func hdJoinOp(c, room, rs int) hdOp { return hdOp{K: "join", C: c, R: room, RS: rs, RawRS: true} }
 func hdToSession(c int) *hdRecipient {
 	return &hdRecipient{T: "session", Id: &hdIdRef{T: "pub", C: c}}
 }
@@ -119,7 +119,7 @@ func TestVerifC03(t *testing.T) {
 			// known finding: the room-session map is shared by all backends
 			kick := append(append([]hdOp{}, base...), hdJoinOp(1, 1, 5), hdJoinOp(2, 7, 5))
 			grant := append(append([]hdOp{}, base...), hdJoinOp(1, 1, 5),
-				hdOp{K: "api", B: 1, SignAs: 1, R: 9, Api: "participants", Users: []hdApiUser{{RS: 5, HasP: true, Perm: []int{4, 3}}}})
+				hdOp{K: "api", B: 1, SignAs: 1, R: 9, Api: "participants", RawRS: true, Users: []hdApiUser{{RS: 5, HasP: true, Perm: []int{4, 3}}}})
 			return []*hdCase{
 				{Id: 0, Mode: 1, Ops: clean},
 				{Id: 1, Mode: 1, Ops: kick, Finding: "C03/room-session-map/global-kick"},
